@@ -403,6 +403,41 @@ fn gc_partial_sweep_then_alloc() {
 #[cfg(kani)]
 #[kani::proof]
 #[kani::unwind(22)]
+fn temp_counter_sync_never_drops_a_slot() {
+  // the temporary-name protocol: a counter is created (or starts anywhere), the heap may grow while the counter is
+  // alive, then the counter is synchronised.  Synchronising may only reserve slots; it never removes or rewrites a
+  // slot that holds a string (live temporaries, permanent strings), whatever the counter's value is.
+  let kinds = [Kind::Perm, Kind::Temp(true), Kind::Temp(false)];
+  let mut heap = mk_heap(&kinds, 0, false);
+  let start: u32 = kani::any();
+  kani::assume(start <= 6);
+  let counter = TempPStrCounter::new(start);
+  let handed_out: u8 = kani::any();
+  kani::assume(handed_out <= 2);
+  if handed_out >= 1 {
+    let _ = counter.alloc_temp_str();
+  }
+  if handed_out >= 2 {
+    let _ = counter.alloc_temp_str();
+  }
+  heap.sync_temp_counter(&counter);
+  let target = (start as usize) + (handed_out as usize);
+  assert!(heap.str_pointer_table.len() >= 3);
+  assert!(heap.str_pointer_table.len() >= target);
+  assert!(kind_of(&heap, 0) == kinds[0]);
+  assert!(kind_of(&heap, 1) == kinds[1]);
+  assert!(kind_of(&heap, 2) == kinds[2]);
+  assert!(PStr(PStrPrivateRepr::from_id(2)).as_str(&heap).len() == S[2].len());
+  // a counter created now starts behind every slot: the names it hands out are fresh
+  assert!(heap.create_temp_counter().current() as usize >= heap.str_pointer_table.len());
+  kani::cover!(target < 3);
+  kani::cover!(target > 3);
+  std::mem::forget(heap);
+}
+
+#[cfg(kani)]
+#[kani::proof]
+#[kani::unwind(22)]
 fn gc_mark_step() {
   let kinds = [Kind::Temp(false), Kind::Temp(true)];
   let mut heap = mk_heap(&kinds, 0, false);
